@@ -4,7 +4,7 @@ from vp.props import c10 as _c10
 
 INFO = {
     "design_ref": "§4.13",
-    "functions": ["cli.update (dry path, via the skeleton of harness/c10.py)", "v2rewrite.diff", "v1rewrite.diff", "rewrite.diff_lines",
+    "functions": ["cli.update (dry path, via the skeleton of harness/c10.py)", "cli._print_diff_str", "v2rewrite.diff", "v1rewrite.diff", "rewrite.diff_lines",
                   "v2rewrite.rewrite_files", "v1rewrite.rewrite_files", "v2rewrite.rfd_from_content"],
     "bounds": "(a) update --dry for every flag combination of the skeleton: no call into the writer, no hook, no VCS call; "
               "(b) 2 files x 2 patterns, every match/no-match combination, 8 file orders, v2 and legacy: the RewrittenFileData shown by "
@@ -32,4 +32,6 @@ def obligations(tier):
         # a file whose only pattern is a partial one that this bump does not change, holding a stale value
         obs.append(Ob(f"L2.dry_shows_what_is_written[{eng}, partial pattern in a stale file]", "c06.py", "dry_shows_what_is_written",
                       {"legacy": legacy, "nfiles": 2, "npat": 2, "order_lo": 0, "order_hi": 1, "partial": True}, timeout=t))
+    obs.append(Ob("L3.print_diff_verbatim", "c06.py", "print_diff_verbatim", {"plen": 3 if tier == "quick" else 5}, timeout=t,
+                  bounds="any diff text of length <= 3 / 5 (all code points, incl. form feed, NEL, U+2028)"))
     return obs
